@@ -12,6 +12,7 @@ import RubyTi.Model.Namespace
 import RubyTi.Model.Match
 import RubyTi.Model.Unify
 import RubyTi.Model.Ret
+import RubyTi.Model.Narrow
 
 /-! Line-protocol driver over the executable model definitions (core-only, built as `lean_exe`).
 One op per input line, one answer line per op; the answer format is the one
@@ -343,6 +344,29 @@ def opLookup (args : String) : String :=
     | _ => "BAD-ARGS"
   | _ => "BAD-ARGS"
 
+def opNarrow (args : String) : String :=
+  match args.splitOn " | " with
+  | [kind, decls, steps] =>
+    let vars0 : Narrow.Vars := ((decls.splitOn ";").filter (· != "")).foldl (fun vs d =>
+      match d.trimAscii.toString.splitOn "=" with
+      | name :: rest => Frame.insert vs name.toList (nestedT ("=".intercalate rest))
+      | _ => vs) []
+    let names := (vars0.map (·.1)).mergeSort (fun a b => String.ofList a ≤ String.ofList b)
+    let render (vs : Narrow.Vars) : String :=
+      ",".intercalate (names.map fun n => String.ofList n ++ "=" ++ Unify.typeToString FUEL ((Frame.lookup vs n).getD T.makeNil))
+    let st0 : Narrow.St := { isIf := kind.trimAscii.toString == "if" }
+    let r := ((steps.splitOn ";").filter (fun s => s.trimAscii.toString != "")).foldl (fun (acc : Narrow.St × Narrow.Vars × List String) step =>
+      let (st, vs, out) := acc
+      match (step.splitOn " ").filter (· != "") with
+      | ["c", obj, cls, ex, sk] =>
+        let (st', vs') := Narrow.cond st vs cls.toList obj.toList (ex == "1") (sk == "1")
+        (st', vs', out ++ [render vs'])
+      | ["e"] => let vs' := Narrow.elseStep st vs; (st, vs', out ++ [render vs'])
+      | ["s"] => let (st', vs') := Narrow.elsifStep st vs; (st', vs', out ++ [render vs'])
+      | _ => acc) (st0, vars0, [])
+    " / ".intercalate r.2.2
+  | _ => "BAD-ARGS"
+
 def rbsParam (s : String) : Rbs.Param :=
   if s == "_" then none else some (((s.splitOn ",").filter (· != "")).map String.toList)
 
@@ -401,6 +425,7 @@ def dispatch (line : String) : String :=
   else if name == "suggest" then opSuggest args
   else if name == "lookup" then opLookup args
   else if name == "match" then opMatch args
+  else if name == "narrow" then opNarrow args
   else if name == "ret" then opRet args
   else if name == "appendv" then opAppendV args
   else if name == "unify" then opUnify args
